@@ -52,6 +52,13 @@ def pool():
     XL = hx.errors().XLError
     # error objects that are NOT the nine shared singletons (a host may build its own)
     vals += [XL('#CIRCULAR!'), XL(''), XL('#N/A', 'detail'), XL(), XL('#N/A'), type('HostXL', (XL,), {'__str__': lambda self: 'host says no'})('x')]
+    # "a value of every type": the types a Python host has lying around besides the spreadsheet ones (appended, so CORE indices stay put)
+    import collections, decimal, enum, fractions
+    Colour = enum.IntEnum('Colour', 'RED GREEN')
+    vals += [datetime.date(2020, 2, 29), datetime.time(13, 45), datetime.timedelta(days=2, hours=3), decimal.Decimal('2.50'), fractions.Fraction(1, 3), range(3), bytearray(b'ab'),
+             frozenset([1, 2]), {1, 2}, type('Label', (str,), {})('AbC'), Colour.GREEN, type('Money', (float,), {})(2.5), -0.0, collections.deque([1, 2]), iter([1, 2, 3]),
+             type('Num', (object,), {'__float__': lambda self: 2.5, '__int__': lambda self: 2, '__index__': lambda self: 2})(), type('Empty', (object,), {}), len, Ellipsis,
+             collections.OrderedDict(a=1), memoryview(b'xy'), (), ((1, 2), (3, 4)), [(1, 2), [3, (4,)]], 'x' * 300]
     return vals
 
 
@@ -132,7 +139,7 @@ class Check(BaseCheck):
     TITLE = 'parse() is total: it always returns a well-formed result/error record'
     TECHNIQUE = 'icontract post-condition on Parser.parse + escape recorder + sys.monitoring step budget under hostile string/argument/fault workloads'
     RULE = ('case = one parse() call: (1) token soup, mutated valid formula or arbitrary Unicode string (incl. surrogates and 10 kB inputs); (2) one supported function at '
-            'arity 0,1,2 over every tuple of a 50-value pool of every type (exhaustive in the thorough tier; quick: all pairs of a 26-value core of every type plus sampled pairs) and sampled arity 3,4; (3) one formula with a fault (30 exception classes incl. cyclic and 3000-long cause chains / hostile '
+            'arity 0,1,2 over every tuple of an 85-value pool of every type (spreadsheet values, error objects incl. host-built ones, and the Python types a host has lying around: date, time, timedelta, Decimal, Fraction, Enum, str/float subclasses, sets, deque, iterators, bytes-likes, callables) (exhaustive in the thorough tier; quick: all pairs of a 26-value core of every type plus sampled pairs) and sampled arity 3,4; (3) one formula with a fault (30 exception classes incl. cyclic and 3000-long cause chains / hostile '
             'return values) injected at one host-callback invocation, every invocation point x every fault class; (4) the repository\'s tests re-run under the contract. '
             'non-trivial = the evaluation reached at least one grammar action (reduction probe) and the three oracles were evaluated; distinct = distinct (formula, bindings class).')
     ASSUMPTIONS = ('BaseExceptions that are not Exceptions (KeyboardInterrupt, SystemExit, GeneratorExit) are control flow the host asks for and are not injected',
